@@ -162,7 +162,9 @@ def check_value(W, rec, key, val, jar=False):
 
 
 PATHS = [None, "/", "/a b", "/a;b", "/é", "/x,y", '/q"r']
-DOMAINS = [None, "example.com", ".example.com", "example.com:8080", "bücher.example", "localhost"]
+DOMAINS = [None, "example.com", ".example.com", "example.com:8080", "bücher.example", "localhost",
+           # a port behind a name whose last label is not ASCII (an IDN top-level domain, a one-label intranet name)
+           "münchen:5000", ".пример.рф:8080", "☃.com:8080"]
 MAXAGES = [None, 0, 3600, timedelta(hours=1), timedelta(seconds=1.9)]
 EXPIRES = [None, datetime(2030, 1, 2, 3, 4, 5, tzinfo=timezone.utc), datetime(2030, 1, 2, 3, 4, 5), 1893553445, "Wed, 02 Jan 2030 03:04:05 GMT"]
 SAMESITE = [None, "lax", "Strict", "NONE", "Lax"]
@@ -253,7 +255,8 @@ def check_jar_path(W, rec, path, value):
 
 
 JAR_DOMAINS = [("example.com", "example.com"), ("example.com", "Example.COM"), ("b\u00fccher.example", "b\u00fccher.example"), ("xn--bcher-kva.example", "b\u00fccher.example"),
-               ("b\u00fccher.example", "xn--bcher-kva.example"), ("shop.example.com", "example.com"), ("shop.b\u00fccher.example", ".b\u00fccher.example"), ("example.com:8080", "example.com")]
+               ("b\u00fccher.example", "xn--bcher-kva.example"), ("shop.example.com", "example.com"), ("shop.b\u00fccher.example", ".b\u00fccher.example"), ("example.com:8080", "example.com"),
+               ("m\u00fcnchen:5000", "m\u00fcnchen:5000"), ("\u043f\u0440\u0438\u043c\u0435\u0440.\u0440\u0444:8080", "\u043f\u0440\u0438\u043c\u0435\u0440.\u0440\u0444:8080")]
 
 
 def check_jar_domain(W, rec, host, domain, value):
